@@ -88,7 +88,7 @@ func (pw *packetWriter) Write(p []byte) (n int, err error) {
 func (pw *packetWriter) ReadFrom(r io.Reader) (n int64, err error) {
 	buf := pw.pkt[:]
 	for {
-		nr, er := r.Read(buf)
+		nr, er := io.ReadFull(r, buf)
 		if nr == PacketSize {
 			nw, ew := pw.WritePacket(&pw.pkt)
 			if nw > 0 {
@@ -106,7 +106,7 @@ func (pw *packetWriter) ReadFrom(r io.Reader) (n int64, err error) {
 			err = gots.ErrInvalidPacketLength
 		}
 		if er != nil {
-			if er != io.EOF {
+			if er != io.EOF && er != io.ErrUnexpectedEOF {
 				err = er
 			}
 			break
